@@ -57,7 +57,10 @@ def frames_match(m, r):
     if m["t"] != r["t"]:
         return False
     if m["t"] == "error":
-        return True
+        # error lines of the limiter carry the library's message (modelled only up to its prefix); every other error line is exact
+        if bytes(m["s"]).startswith(b"ERR Rate limit check failed"):
+            return bytes(r["s"]).startswith(b"ERR Rate limit check failed")
+        return m["s"] == r["s"]
     if m["t"] == "arr":
         ml, rl = m["l"], r["l"]
         if len(ml) != len(rl):
